@@ -59,6 +59,10 @@ def source_font(which):
         from vmc.gen import layoutfont
 
         return layoutfont.make()
+    if which == "layout-dup":
+        from vmc.gen import layoutfont
+
+        return layoutfont.make(dup=True)
     # a real nanoemoji COLRv1 font with GSUB (sequence) and reuse
     from vmc.core import lattice
     from vmc.drive import inproc
@@ -146,9 +150,9 @@ def bfs(report, which, n_movable):
     if raw0 or warn0:
         raise HarnessError(f"the source font '{which}' itself has unsorted coverage: {raw0[:2]} {warn0[:1]}")
     order0 = f0.getGlyphOrder()
-    fixed = order0[: len(order0) - n_movable] if which != "layout" else [order0[0]]
+    fixed = order0[: len(order0) - n_movable] if not which.startswith("layout") else [order0[0]]
     movable = [g for g in order0 if g not in fixed]
-    if which == "layout":
+    if which.startswith("layout"):
         movable = movable[:n_movable]
         fixed = [g for g in order0 if g not in movable]
     # keep .notdef first, fixed glyphs in place at the front
@@ -247,6 +251,8 @@ def run(report, tier, only=None):
     n = 6
     s1, t1 = bfs(report, "layout", n)
     s2, t2 = bfs(report, "nanoemoji", 5)
+    s3, t3 = bfs(report, "layout-dup", n)
+    report.extra["layout_dup_font_orders"] = s3
     argument_errors(report)
     report.extra["layout_font_orders"] = s1
     report.extra["nanoemoji_font_orders"] = s2
@@ -254,6 +260,6 @@ def run(report, tier, only=None):
         "E5: breadth-first search over all orders of the movable glyphs (quick 5! = 120, thorough 6! = 720) of a font carrying one lookup of every "
         "GSUB/GPOS type+format and every glyph-keyed GDEF structure; each transition calls the real reorder_glyphs on the already reordered font, saves, "
         "reloads; in every state the name-keyed facts (cmap, hmtx, outlines, COLR, every lookup zipped coverage->record) must equal the initial ones and "
-        "every coverage in the binary must be sorted; the same on a real nanoemoji COLRv1 font with GSUB; distinct = orders reached per font"
+        "every coverage in the binary must be sorted; the same on a real nanoemoji COLRv1 font with GSUB and on a second layout font in whose parallel arrays two glyphs carry equal entries; distinct = orders reached per font"
     )
     report.assumptions += ["fontTools compiles coverage tables in the order given (it does not sort them), so unsorted input shows up in the binary"]
